@@ -1,0 +1,50 @@
+//go:build verif
+
+package packet
+
+// Contracts for SUBACK (govc, /verif). Comments only. MQTT 3.1.1 §3.9.
+//
+//@ spec pred codeok(c int) = c == 0 || c == 1 || c == 2 || c == 128
+//@ spec func subackrl(s *Suback) int = 2 + len(s.ReturnCodes)
+//@ spec pred wf_suback(s *Suback) = s.ID != 0 && len(s.ReturnCodes) >= 1 && subackrl(s) <= 268435455 && forall i int {s.ReturnCodes[i]} :: 0 <= i && i < len(s.ReturnCodes) ==> codeok(s.ReturnCodes[i])
+//
+//@ func (s *Suback) len() (n int)
+//@   ensures n == subackrl(s)
+//@ func (s *Suback) Len() (n int)
+//@   ensures [size] subackrl(s) <= 268435455 ==> n == 1 + vlen(subackrl(s)) + subackrl(s)
+//@   ensures [big]  subackrl(s) > 268435455 ==> n == 1 + subackrl(s)
+//
+//@ func (s *Suback) Encode(dst []byte) (n int, err error)
+//@   requires [sep]     arr(s.ReturnCodes) != arr(dst) || len(s.ReturnCodes) == 0
+//@   ensures [ok]       wf_suback(s) && len(dst) >= 1 + vlen(subackrl(s)) + subackrl(s) ==> err == nil
+//@   ensures [count]    err == nil ==> n == 1 + vlen(subackrl(s)) + subackrl(s)
+//@   ensures [l-hdr]    err == nil ==> hdr_at(dst, 9, 0, subackrl(s))
+//@   ensures [l-id]     err == nil ==> be16(dst, 1 + vlen(subackrl(s))) == s.ID && s.ID != 0
+//@   ensures [l-codes]  err == nil ==> forall k int {dst[k]} :: 3 + vlen(subackrl(s)) <= k && k < 3 + vlen(subackrl(s)) + len(s.ReturnCodes) ==> dst[k] == s.ReturnCodes[k - 3 - vlen(subackrl(s))]
+//@   modifies dst[0:len(dst)]
+//@   loop 1 invariant [pos]   0 <= rangeindex + 1 && rangeindex + 1 <= len(s.ReturnCodes) && total == 3 + vlen(subackrl(s)) + rangeindex + 1 && subackrl(s) <= 268435455 && len(dst) >= 1 + vlen(subackrl(s)) + subackrl(s)
+//@   loop 1 invariant [hdr]   hdr_at(dst, 9, 0, subackrl(s)) && be16(dst, 1 + vlen(subackrl(s))) == s.ID && s.ID != 0
+//@   loop 1 invariant [codes] forall k int {dst[k]} :: 3 + vlen(subackrl(s)) <= k && k < total ==> dst[k] == s.ReturnCodes[k - 3 - vlen(subackrl(s))]
+//@   loop 1 invariant [valid] forall i int {s.ReturnCodes[i]} :: 0 <= i && i <= rangeindex ==> codeok(s.ReturnCodes[i])
+//
+//@ spec pred suback_valid(src []byte) = hdr_ok(src, 9) && rlen(src) >= 3 && be16(src, hlen(src)) != 0 && forall k int {src[k]} :: hlen(src) + 2 <= k && k < hlen(src) + rlen(src) ==> codeok(src[k])
+//
+//@ func (s *Suback) Decode(src []byte) (n int, err error)
+//@   ensures [bound]   0 <= n && n <= len(src)
+//@   ensures [accept]  err == nil <==> suback_valid(src)
+//@   ensures [extent]  err == nil ==> n == hlen(src) + rlen(src)
+//@   ensures [id]      err == nil ==> s.ID == be16(src, hlen(src))
+//@   ensures [codes]   err == nil ==> len(s.ReturnCodes) == rlen(src) - 2 && forall i int {s.ReturnCodes[i]} :: 0 <= i && i < len(s.ReturnCodes) ==> s.ReturnCodes[i] == src[hlen(src) + 2 + i]
+//@   ensures [owned]   err == nil ==> fresh(s.ReturnCodes)
+//@   modifies s.ID, s.ReturnCodes
+//@   loop 1 invariant [pos]    hdr_ok(src, 9) && 0 <= i && i <= rlen(src) - 2 && total == hlen(src) + 2 + i && be16(src, hlen(src)) != 0 && s.ID == be16(src, hlen(src)) && rcl == rlen(src) - 2
+//@   loop 1 invariant [codes]  len(s.ReturnCodes) == i && fresh(s.ReturnCodes) && forall j int {s.ReturnCodes[j]} :: 0 <= j && j < i ==> s.ReturnCodes[j] == src[hlen(src) + 2 + j]
+//@   loop 1 invariant [valid]  forall k int {src[k]} :: hlen(src) + 2 <= k && k < total ==> codeok(src[k])
+//@   loop 1 decreases rlen(src) - 2 - i
+//
+//@ lemma roundtrip_suback(b []byte, s *Suback)
+//@   requires wf_suback(s) && len(b) == 1 + vlen(subackrl(s)) + subackrl(s)
+//@   requires hdr_at(b, 9, 0, subackrl(s)) && be16(b, 1 + vlen(subackrl(s))) == s.ID
+//@   requires forall k int {b[k]} :: 3 + vlen(subackrl(s)) <= k && k < 3 + vlen(subackrl(s)) + len(s.ReturnCodes) ==> b[k] == s.ReturnCodes[k - 3 - vlen(subackrl(s))]
+//@   ensures [hl]     hlen(b) == 1 + vlen(subackrl(s)) && rlen(b) == subackrl(s)
+//@   ensures [valid]  suback_valid(b)
